@@ -201,6 +201,10 @@ def cases(tier, seed):
         for fr in frames:
             for jit in (1, 2):
                 out.append({"map": mp, "frame": fr, "jitter": jit})
+    # sketches put together by MappedSketch.merge(): a list, lists of two, or one sketch at a time
+    for mp in ("s2x2", "s3x3", "s4x2", "irregular", "v5", "L2d"):
+        for via in ("merge_list", "merge_pairs", "merge_seq"):
+            out.append({"map": mp, "frame": frames[0], "jitter": 1, "via": via})
     # model sizes far from 1 (0.1 mm and 1 km): every distance in the model is SIZES times the unit one
     for mp in (["s3x3", "s4x2", "v5", "irregular", "h3x3x2", "L3d"] if tier == "quick" else maps):
         for size in SIZES:
@@ -258,11 +262,28 @@ def build(case):
     return pos, cells, dim, boundary, neigh, interior
 
 
+VIA = [None]  # how 2-D sketches are put together in the current case (None: one MappedSketch call)
+
+
 def make_smoother(pos, cells, dim):
     import classy_blocks as cb
 
     if dim == 2:
-        sk = cb.MappedSketch(pos, cells)
+        if VIA[0]:
+            # one single-face sketch per quad, merged into the first: all at once (a list) or one after the other
+            parts = [cb.MappedSketch(np.asarray(pos)[list(q)], [[0, 1, 2, 3]]) for q in cells]
+            sk = parts[0]
+            if VIA[0] == "merge_list":
+                sk.merge(parts[1:])
+            elif VIA[0] == "merge_pairs":
+                # a list of two at a time
+                for k in range(1, len(parts), 2):
+                    sk.merge(parts[k : k + 2])
+            else:
+                for other in parts[1:]:
+                    sk.merge(other)
+        else:
+            sk = cb.MappedSketch(pos, cells)
         return cb.SketchSmoother(sk), sk
     mesh = cb.Mesh()
     for c in cells:
@@ -297,6 +318,19 @@ def run_case(case):
         inv = {i: k for k, i in enumerate(order)}  # model index -> mesh vertex index
     else:
         inv = {i: i for i in range(len(pos))}
+    VIA[0] = case.get("via")
+    if VIA[0]:
+        _, sk0 = make_smoother(pos, cells, dim)
+        sp = np.array(sk0.positions, float)
+        ok = len(sp) == len(pos) and len(sk0.faces) == len(cells)
+        if ok:
+            inv = {i: int(np.argmin(np.linalg.norm(sp - pos[i], axis=1))) for i in range(len(pos))}
+            ok = len(set(inv.values())) == len(pos) and all(np.linalg.norm(sp[inv[i]] - pos[i]) == 0 for i in inv)
+        if ok:
+            ok = all([inv[i] for i in q] == [int(j) for j in sk0.indexes[fi]] and np.array_equal(sk0.faces[fi].point_array, np.asarray(pos)[list(q)]) for fi, q in enumerate(cells))
+        if not ok:
+            bad("merged-sketch-map-differs-from-its-faces", f"{len(sp)} points / {len(sk0.faces)} faces after merging {len(cells)} single-face sketches over {len(pos)} distinct points, or indexes that do not address the faces' points")
+            return {"violations": violations, "outcome": f"{case['map']}:merge-broken", "execs": 1, "nontrivial_n": 1, "states": 1, "transitions": 1}
     subsets = [()]
     for k in (1, 2, len(interior) - 1, len(interior)):
         if 0 < k <= len(interior):
